@@ -269,7 +269,7 @@ impl vstd::std_specs::convert::FromSpecImpl<PreparationScheme> for ValueSource {
 }
 impl From<PreparationScheme> for ValueSource {
 //@ lift crates/air-lib/trace-handler/src/merger/call_merger.rs :: impl From<PreparationScheme> for ValueSource :: fn from
-//@ props C05 C09
+//@ props C05 C09 C12 C13
 //@ end
 }
 
